@@ -465,11 +465,29 @@ def _describe_named(body, op, depth=0):
     nm = body.local_name(l)
     if nm in ("val", "residual"):      # bindings introduced by the `?` desugaring
         nm = None
+    rn = getattr(body, "ref_names", None)
+    if nm and rn is not None and nm not in rn and not (1 <= l <= body.argc):
+        ds0 = body.defs(l)
+        if len(ds0) == 1 and ds0[0][2] in ("assign", "call"):
+            nm = None                  # a new single-assignment local: expand its definition
     if nm and not p["p"]:
         return "var(%s)" % nm
     if p["p"]:
-        base = "var(%s)" % nm if nm else _describe_named(body, {"l": l, "p": []}, depth + 1)
-        for e in p["p"]:
+        proj = list(p["p"])
+        base = None
+        # `(x as Continue).0` where x is `Continue(v)` on exactly one path and a failing `?` on all others (the shape the
+        # inliner leaves behind for `helper(..)?`): the value is v
+        if not nm and len(proj) >= 2 and isinstance(proj[0], dict) and proj[0].get("dc") is not None and proj[0].get("n") in ("Continue", "Ok", "Some") \
+                and isinstance(proj[1], dict) and proj[1].get("f") == 0:
+            ds0 = body.defs(l)
+            hit = [d for d in ds0 if d[2] == "assign" and d[3].get("k") == "agg" and d[3].get("vname") == proj[0]["n"] and len(d[3].get("ops", [])) == 1]
+            rest = [d for d in ds0 if d not in hit]
+            if len(hit) == 1 and rest and all((d[2] == "call" and d[3].get("always_break")) or (d[2] == "assign" and d[3].get("k") == "agg" and d[3].get("vname") in ("Break", "Err", "None")) for d in rest):
+                base = _describe_named(body, hit[0][3]["ops"][0], depth + 1)
+                proj = proj[2:]
+        if base is None:
+            base = "var(%s)" % nm if nm else _describe_named(body, {"l": l, "p": []}, depth + 1)
+        for e in proj:
             if isinstance(e, dict) and "f" in e:
                 base += "." + str(e.get("n", e["f"]))
             elif isinstance(e, dict) and "i" in e:
